@@ -41,7 +41,7 @@ def v18():
 
 V18 = v18()
 
-CORE_OPTS = [dict(cleaned=c, AB=ab) for c in (True, False) for ab in ('A', 'B', 'AB')]
+CORE_OPTS = [dict(cleaned=c, AB=ab) for c in (True, False) for ab in ('A', 'B', 'AB', 'BA')]   # 'BA': B named first in the user's dict
 
 
 def rich_opts():
@@ -133,7 +133,7 @@ def check_load(cat, c, o, slab_order=None, masks=None):
     box = cat.box
     start = 0
     nrows = None
-    for X in AB:
+    for X in sorted(AB):      # all of A before all of B, whatever order the user named them in
         exp = cat.expected(X, cleaned, slab_order, masks)
         if nrows is None:
             nrows = len(exp)
